@@ -437,6 +437,7 @@ class SessionDescription:
             # check payload types are valid
             kind = m.group(1)
             fmt = m.group(4).split()
+            assert fmt
             fmt_int: Optional[list[int]] = None
             if kind in ["audio", "video"]:
                 fmt_int = [int(x) for x in fmt]
